@@ -1141,11 +1141,13 @@ def rule_subcell_radius(chk):
     rel = 'pysph/base/spatial_hash_nnps.pyx'
     t = M.cy(rel)
     cls = M.find_class(t, 'ExtendedSpatialHashNNPS')
-    fn = M.find_func(cls, '_neighbor_boxes')
+    # helper functions of the module a maintainer has moved the radius computation into are inlined again (parameters become locals bound to the arguments)
+    fn = M.inline_helpers(cls, M.find_func(cls, '_neighbor_boxes'), keep=set(M.methods(cls)), module=t)
     who = 'ExtendedSpatialHashNNPS._neighbor_boxes'
     M.set_parents(fn)
+    defs_sr = N.local_defs(fn.body)
     ceils = [c for c in M.calls(fn) if M.call_name(c) == 'ceil' and len(c.args) == 1 and isinstance(c.args[0], ast.BinOp) and isinstance(c.args[0].op, ast.Div)
-             and compact(c.args[0].right) == 'self.h_sub']
+             and compact(N.inline(c.args[0].right, defs_sr)) == 'self.h_sub']
     if len(ceils) != 1:
         raise AnalysisError('%s: the `ceil(<radius>/self.h_sub)` computing the number of sub-cells to visit vanished' % who)
     st = ceils[0]
@@ -1810,6 +1812,27 @@ def rule_refresh_unconditional(chk):
     chk.floor('per-array rebuild loops', n, 3)
 
 
+def rule_every_level_searched(chk):
+    """the stratified classes keep one structure per level of smoothing length; a query visits every level - an empty level is skipped (continue), it does not end the search:
+    particles with a larger h live in the levels above it"""
+    n = 0
+    for rel in ('pysph/base/stratified_hash_nnps.pyx', 'pysph/base/stratified_sfc_nnps.pyx'):
+        for cls in M.classes(M.cy(rel)):
+            fn = M.methods(cls).get('find_nearest_neighbors')
+            if fn is None:
+                continue
+            M.set_parents(fn)
+            for loop in [l for l in ast.walk(fn) if isinstance(l, ast.For) and compact(l.iter) in ('range(self.num_levels)', 'range(num_levels)')]:
+                n += 1
+                brk = [x for x in ast.walk(loop) if isinstance(x, (ast.Break, ast.Return)) and M.enclosing(x, (ast.For, ast.While)) is loop]
+                chk.decide(not brk, 'explicit-stencil-covers-cell-size', '%s.find_nearest_neighbors:every-level-searched@%d' % (cls.name, loop.lineno), node=brk[0] if brk else loop, file=rel,
+                           func='%s.find_nearest_neighbors' % cls.name,
+                           detail_bad='the loop over the levels is left (%s at line %d) before all levels were searched: with an empty level below an occupied one (two arrays of '
+                                      'different resolution, a bimodal h) the particles of the upper levels are never found' % (type(brk[0]).__name__.lower() if brk else '', brk[0].lineno if brk else 0),
+                           detail_ok='every level visited (empty ones skipped with continue)')
+    chk.floor('loops over the levels of the stratified structures', n, 1)
+
+
 def rule_query_array_index(chk):
     """helpers that encode / decode per-array layouts (the key of a cell, the particle id inside a key: the bit widths differ from array to array) take the index of the array
     they are to work for; in a query everything that is looked up belongs to the *source* array, so inside find_nearest_neighbors that argument is the source index (through
@@ -2225,6 +2248,7 @@ def main(chk):
     rule_level_cell_size(chk)
     rule_narrowing(chk)
     rule_query_array_index(chk)
+    rule_every_level_searched(chk)
     rule_refresh_unconditional(chk)
     rule_cxx_headers(chk)
     # only valid indices, no duplicates: a sort of the result must touch exactly the slice this query appended (rule shared with C05)
